@@ -28,7 +28,11 @@ pub const GROUP: &str = "DEFAULT_GROUP";
 #[serde(tag = "op")]
 pub enum NStep {
     /// HTTP register / update. eph: 0 omitted (default ephemeral), 1 true, 2 false; enabled: 0 omitted, 1 true, 2 false; weight 0 = omitted
-    HttpReg { svc: u8, ip: u8, eph: u8, enabled: u8, weight: u8 },
+    /// meta: 0 no metadata, 1..3 a metadata map (console-style override: the handler is the same for POST / PUT / PATCH and
+    /// sets from_update); method: 0 POST, 1 PUT, 2 PATCH
+    HttpReg { svc: u8, ip: u8, eph: u8, enabled: u8, weight: u8, #[serde(default)] meta: u8, #[serde(default)] method: u8 },
+    /// gRPC BatchInstanceRequest of one connection: several addresses of one service registered / deregistered at once
+    GrpcBatch { conn: u8, svc: u8, ips: Vec<u8>, dereg: bool },
     HttpBeat { svc: u8, ip: u8 },
     HttpDereg { svc: u8, ip: u8, eph: u8 },
     GrpcReg { conn: u8, svc: u8, ip: u8, eph: bool, enabled: bool, weight: u8 },
@@ -135,7 +139,7 @@ pub async fn exec_naming(id: &'static str, script: Value) -> ExecResult {
             sim::event(&format!("step {} {}", i, serde_json::to_string(st).unwrap_or_default()));
             let now = sim::now_us();
             match st {
-                NStep::HttpReg { svc, ip, eph, enabled, weight } => {
+                NStep::HttpReg { svc, ip, eph, enabled, weight, meta, method } => {
                     let (s, a) = (*svc % 3, *ip % 4);
                     let mut q = format!("serviceName={}&ip={}&port=8080&namespaceId={}&groupName={}", urlencode(SVCS[s as usize]), ip_of(a), NS, GROUP);
                     if *eph > 0 {
@@ -147,7 +151,11 @@ pub async fn exec_naming(id: &'static str, script: Value) -> ExecResult {
                     if *weight > 0 {
                         q.push_str(&format!("&weight={}", *weight as f32));
                     }
-                    let resp = call(&app, "POST", &format!("/nacos/v1/ns/instance?{}", q), &[], None).await;
+                    if *meta > 0 {
+                        q.push_str(&format!("&metadata={}", urlencode(&json!({"zone": format!("z{}", meta), "v": i}).to_string())));
+                        sim::count("probe.http_metadata_override", 1);
+                    }
+                    let resp = call(&app, ["POST", "PUT", "PATCH"][*method as usize % 3], &format!("/nacos/v1/ns/instance?{}", q), &[], None).await;
                     vensure!(resp.status == 200, &format!("{}.register_failed", id), "step {}: HTTP register answered {} {}", i, resp.status, resp.text());
                     let want_eph = *eph != 2;
                     match m.get_mut(&(s, a)) {
@@ -227,6 +235,43 @@ pub async fn exec_naming(id: &'static str, script: Value) -> ExecResult {
                         e.fuzzy = true;
                         // the gRPC handler never changes the ephemeral flag of an existing instance
                         e.unsure = !e.ephemeral;
+                    }
+                }
+                NStep::GrpcBatch { conn, svc, ips, dereg } => {
+                    let (s, c) = (*svc % 3, *conn % 3);
+                    let addrs: BTreeSet<u8> = ips.iter().map(|a| *a % 4).collect();
+                    if addrs.is_empty() {
+                        continue;
+                    }
+                    let insts: Vec<Value> = addrs.iter().map(|a| json!({"ip": ip_of(*a), "port": 8080, "weight": 1.0, "healthy": true, "enabled": true, "ephemeral": true, "clusterName": "DEFAULT", "metadata": {}})).collect();
+                    let req = json!({"namespace": NS, "serviceName": SVCS[s as usize], "groupName": GROUP, "type": if *dereg { "deregisterInstance" } else { "registerInstance" }, "instances": insts});
+                    let payload = PayloadUtils::build_payload("BatchInstanceRequest", req.to_string());
+                    let meta = RequestMeta { connection_id: Arc::new(conn_id(c)), client_ip: "10.2.0.9".to_string(), ..Default::default() };
+                    let res = n.invoker.handle(payload, meta).await;
+                    vensure!(res.map(|r| r.success).unwrap_or(false), &format!("{}.register_failed", id), "step {}: gRPC batch request refused", i);
+                    sim::count("probe.grpc_batch", 1);
+                    for a in addrs {
+                        if *dereg {
+                            if let Some(e) = m.get(&(s, a)) {
+                                let protected = e.ephemeral && e.owner != Owner::Grpc(c);
+                                if e.ephemeral && e.unsure {
+                                    let still = all_instances(&n, s).await.map(|l| l.iter().any(|x| x.ip.as_str() == ip_of(a))).unwrap_or(false);
+                                    if !still {
+                                        m.remove(&(s, a));
+                                    }
+                                } else if !protected {
+                                    m.remove(&(s, a));
+                                }
+                            }
+                        } else {
+                            let fresh = !m.contains_key(&(s, a));
+                            let e = m.entry((s, a)).or_insert(MInst { ephemeral: true, enabled: true, weight: 1.0, owner: Owner::Grpc(c), last_beat_us: now, fuzzy: false, unsure: false, probe_failed: false });
+                            if !fresh {
+                                e.owner = Owner::Grpc(c);
+                                e.fuzzy = true;
+                                e.unsure = !e.ephemeral;
+                            }
+                        }
                     }
                 }
                 NStep::GrpcDereg { conn, svc, ip, eph } => {
@@ -460,6 +505,30 @@ pub async fn exec_naming(id: &'static str, script: Value) -> ExecResult {
                     let wantq2: BTreeSet<String> = all[&s].iter().filter(|x| x.enabled).map(|x| x.ip.as_ref().clone()).collect();
                     let gotq2: BTreeSet<String> = q2.iter().map(|x| x.ip.as_ref().clone()).collect();
                     vensure!(gotq2 == wantq2, "C12.filtered_query", "after step {} ({:?}): query for {} returns {:?}, the enabled instances are {:?}", i, st, SVCS[s as usize], gotq2, wantq2);
+                    // the same through the SDK-facing routes: HTTP instance list (healthyOnly true / false; omitted counts as true in this handler, the statement leaves it open) and
+                    // the gRPC ServiceQueryRequest (always healthy-only)
+                    if rest == 0 {
+                        for (ho, want) in [(Some(true), &wantq), (Some(false), &wantq2), (None, &wantq)] {
+                            let mut q = format!("serviceName={}&namespaceId={}&groupName={}", urlencode(&format!("{}@@{}", GROUP, SVCS[s as usize])), NS, GROUP);
+                            if let Some(h) = ho {
+                                q.push_str(&format!("&healthyOnly={}", h));
+                            }
+                            let resp = call(&app, "GET", &format!("/nacos/v1/ns/instance/list?{}", q), &[], None).await;
+                            vensure!(resp.status == 200, "C12.query_failed", "after step {}: HTTP instance list answered {} {}", i, resp.status, resp.text());
+                            let v: Value = serde_json::from_str(&resp.text()).unwrap_or(Value::Null);
+                            let got: BTreeSet<String> = v["hosts"].as_array().map(|l| l.iter().filter_map(|h| h["ip"].as_str().map(|x| x.to_string())).collect()).unwrap_or_default();
+                            vensure!(&got == want, "C12.http_list", "after step {} ({:?}): HTTP /ns/instance/list (healthyOnly {:?}) for {} returns {:?}, expected {:?}", i, st, ho, SVCS[s as usize], got, want);
+                        }
+                        let req = json!({"namespace": NS, "serviceName": SVCS[s as usize], "groupName": GROUP, "healthyOnly": true});
+                        let payload = PayloadUtils::build_payload("ServiceQueryRequest", req.to_string());
+                        let meta = RequestMeta { connection_id: Arc::new("1_gquery".to_string()), client_ip: "10.2.0.9".to_string(), ..Default::default() };
+                        let r = n.invoker.handle(payload, meta).await.map_err(|e| Violation::new("C12.query_failed", e.to_string()))?;
+                        let body = r.payload.body.map(|b| b.value).unwrap_or_default();
+                        let v: Value = serde_json::from_slice(&body).unwrap_or(Value::Null);
+                        let got: BTreeSet<String> = v["serviceInfo"]["hosts"].as_array().map(|l| l.iter().filter_map(|h| h["ip"].as_str().map(|x| x.to_string())).collect()).unwrap_or_default();
+                        vensure!(got == wantq, "C12.grpc_service_query", "after step {} ({:?}): gRPC ServiceQueryRequest for {} returns {:?}, the enabled and healthy instances are {:?} (answer {})", i, st, SVCS[s as usize], got, wantq, String::from_utf8_lossy(&body).chars().take(300).collect::<String>());
+                        sim::count("probe.sdk_routes_compared", 1);
+                    }
                 }
                 // drop expired HTTP instances from the model once the node has dropped them
                 let gone: Vec<(u8, u8)> = m.iter().filter(|((s, a), e)| e.ephemeral && (e.owner == Owner::Http || e.unsure) && !all[s].iter().any(|x| x.ip.as_str() == ip_of(*a)) && now > e.last_beat_us + r_ms * 1000 - 1_000_000).map(|(k, _)| *k).collect();
@@ -578,7 +647,7 @@ fn gen_nsteps(rng: &mut Rng, n: u64, bias: &str) -> Vec<NStep> {
         let st = match bias {
             "timing" => {
                 if r < 25 {
-                    NStep::HttpReg { svc, ip, eph: *rng.pick(&[0u8, 0, 1, 2]), enabled: 0, weight: 0 }
+                    NStep::HttpReg { svc, ip, eph: *rng.pick(&[0u8, 0, 1, 2]), enabled: 0, weight: 0, meta: 0, method: 0 }
                 } else if r < 55 {
                     NStep::HttpBeat { svc, ip }
                 } else if r < 62 {
@@ -591,13 +660,16 @@ fn gen_nsteps(rng: &mut Rng, n: u64, bias: &str) -> Vec<NStep> {
             }
             _ => {
                 if r < 22 {
-                    NStep::HttpReg { svc, ip, eph: *rng.pick(&[0u8, 0, 1, 2]), enabled: *rng.pick(&[0u8, 0, 1, 2]), weight: *rng.pick(&[0u8, 0, 1, 3]) }
+                    NStep::HttpReg { svc, ip, eph: *rng.pick(&[0u8, 0, 1, 2]), enabled: *rng.pick(&[0u8, 0, 1, 2]), weight: *rng.pick(&[0u8, 0, 1, 3]), meta: *rng.pick(&[0u8, 0, 0, 1, 2]), method: *rng.pick(&[0u8, 0, 1, 2]) }
                 } else if r < 30 {
                     NStep::HttpBeat { svc, ip }
                 } else if r < 38 {
                     NStep::HttpDereg { svc, ip, eph: *rng.pick(&[0u8, 1, 2]) }
                 } else if r < 62 {
                     NStep::GrpcReg { conn: rng.below(3) as u8, svc, ip, eph: rng.chance(0.8), enabled: rng.chance(0.85), weight: *rng.pick(&[0u8, 1, 2]) }
+                } else if r < 66 {
+                    let k = rng.range(1, 4);
+                    NStep::GrpcBatch { conn: rng.below(3) as u8, svc, ips: (0..k).map(|_| rng.below(4) as u8).collect(), dereg: rng.chance(0.25) }
                 } else if r < 72 {
                     NStep::GrpcDereg { conn: rng.below(3) as u8, svc, ip, eph: rng.chance(0.8) }
                 } else if r < 80 {
